@@ -25,6 +25,7 @@ type Spec struct {
 	Jobs           []Job             `json:"jobs"`
 	Workers        int               `json:"workers"`
 	QueryTimeoutMs int               `json:"query_timeout_ms"`
+	DeadlineS      int               `json:"deadline_s"`
 	Record         int               `json:"record"`
 	TranscriptDir  string            `json:"transcript_dir"`
 	Out            string            `json:"out"`
@@ -107,7 +108,7 @@ func main() {
 		jobs = append(jobs, j)
 	}
 	t1 := time.Now()
-	res, err := runJobs(prog, byPath, jobs, spec.Workers, spec.QueryTimeoutMs, spec.Record)
+	res, err := runJobs(prog, byPath, jobs, spec.Workers, spec.QueryTimeoutMs, spec.Record, spec.DeadlineS)
 	if err != nil {
 		out.Error = err.Error()
 	}
